@@ -195,6 +195,7 @@ func devScenarios(args []string) {
 				switch {
 				case st.Fails != "" && (t.Class != "user" || !strings.Contains(t.ErrType, st.Fails)):
 					status = "BAD(expected failure " + st.Fails + ")"
+				case st.SameEngineOnly:
 				case st.Fails == "" && t.Class != "ok":
 					status = "BAD(unexpected failure)"
 				case st.Expect != nil && len(st.Expect) > 0 && fmt.Sprint(t.Logs) != fmt.Sprint(st.Expect):
